@@ -143,3 +143,12 @@ pub open spec fn has_voter(s: Seq<(Voter, VoterVotes)>, k: Voter) -> bool { exis
 #[verifier::external_body] pub fn votes_or_insert_(m: &mut Vec<(Voter, VoterVotes)>, k: Voter, d: VoterVotes) -> (r: &mut VoterVotes)
     ensures has_voter(old(m)@, k) ==> exists|i: int| 0 <= i < old(m)@.len() && old(m)@[i].0 == k && *r == old(m)@[i].1 && final(m)@ == old(m)@.update(i, (k, *final(r))),
             !has_voter(old(m)@, k) ==> *r == d && exists|p: int| 0 <= p <= old(m)@.len() && final(m)@ == old(m)@.insert(p, (k, *final(r))) { unimplemented!() }
+
+// ---- VotingProposalBuilder::build: the proposals written into the body, in the builder's order (the order the proposing redeemer indices count in)
+#[verifier::external_body] pub struct VotingProposals { _p: core::marker::PhantomData<u8> }
+impl VotingProposals {
+    pub uninterp spec fn items(&self) -> Seq<VotingProposal>;
+    /// first-occurrence de-duplication (PROVED in unit dedup_voting_proposals); used here only on a duplicate-free vector, which it keeps as it is
+    #[verifier::external_body] pub fn from_vec(v: Vec<VotingProposal>) -> (r: VotingProposals)
+        ensures (forall|i: int, j: int| 0 <= i < j < v@.len() ==> v@[i] != v@[j]) ==> r.items() == v@ { unimplemented!() }
+}
